@@ -652,7 +652,7 @@ class ModeSim(Sim):
             st.skipped += 1
             return
         cls = getattr(st.SG.optim, ev["kind"])
-        st.opt = cls([st.T[i] for i in ids], lr=0.01)
+        st.opt = st.must("C07.harness_optimizer", f"constructing {ev['kind']} over float leaves (some of them not requiring grad)", cls, [st.T[i] for i in ids], lr=0.01)
 
     def _ev_opt_step(self, st, ev):
         if st.opt is None:
